@@ -408,7 +408,7 @@ def mc(prop, rep):
 
 def run(prop, tier):
     rng = random.Random(seed() * 7 + int(prop[1:]))
-    rep = Report(prop, tier, "model_checking")
+    rep = Report(prop, tier, "fault_enumeration" if prop == "C12" else "model_checking")
     mc(prop, rep)
     known = {f["id"]: f for f in open_findings(prop)}
     if prop == "C17":
